@@ -442,9 +442,14 @@ fn merge(rep: &mut ShardReport, w: &World) {
     }
 }
 
-fn owned(prof: &Profile, v: &Violation) -> bool {
+fn owned(prof: &Profile, v: &Violation, w: &World) -> bool {
     let key = format!("{}:{}", v.property, v.clause);
-    prof.own.iter().any(|p| key.starts_with(p))
+    if prof.own.iter().any(|p| key.starts_with(p)) {
+        return true;
+    }
+    // C03 also covers "the next accepted message receives the next offset; no restart lets an offset be used twice":
+    // offset-assignment clauses that fire after a restart count for it as well.
+    prof.owner == "C03" && w.restarts > 0 && key.starts_with("C01:")
 }
 
 pub async fn run(ctx: &Ctx, rep: &mut ShardReport) {
@@ -477,7 +482,7 @@ pub async fn run(ctx: &Ctx, rep: &mut ShardReport) {
                 }
             }
             Outcome::Stopped(Stop::Violation(v)) => {
-                if owned(&prof, &v) {
+                if owned(&prof, &v, &w) {
                     rep.violation(v);
                 } else {
                     rep.foreign(&v);
@@ -562,7 +567,7 @@ async fn replay_file(_ctx: &Ctx, prof: &Profile, path: &str, rep: &mut ShardRepo
     match out {
         Outcome::Ok => rep.notes.push("replay: no violation reproduced".into()),
         Outcome::Stopped(Stop::Violation(v)) => {
-            if owned(prof, &v) {
+            if owned(prof, &v, &w) {
                 rep.violation(v);
             } else {
                 rep.foreign(&v);
